@@ -575,15 +575,26 @@ def r2(ctx):
         if n in declared:
             ctx.check(declared[n] == o, f"{DC}::involution[{o}]",
                       f"negate(negate({o})) = {declared[n]} != {o}", f"{o} <-> {n}", loc)
-    # BinaryExpression._negate swaps operator and negate
+    # BinaryExpression._negate swaps operator and negate: every BinaryExpression it can return (locals inlined,
+    # a `return self.<helper>(...)` followed) is built as (self.left, right', self.negate, negate=self.operator)
     f = ctx.func(f"{EL}::BinaryExpression._negate")
-    good = False
-    for c in calls_in(f.node):
-        if (call_name(c) or "") == "BinaryExpression" and len(c.args) >= 3:
-            kw = {k.arg: unparse(k.value) for k in c.keywords}
-            good = unparse(c.args[2]) == "self.negate" and kw.get("negate") == "self.operator" and unparse(c.args[0]) == "self.left"
-    ctx.check(good, f.key, "BinaryExpression._negate does not build (left, right', self.negate, negate=self.operator)",
-              "operator/negate swapped", f.loc)
+    init = ctx.func(f"{EL}::BinaryExpression.__init__")
+    iparams = [p for p in init.params if p != "self"]
+    ctx.require({"left", "operator", "negate"} <= set(iparams), "BinaryExpression.__init__ lost left/operator/negate")
+    ctors = [v for v in returned_values(ctx.index, f.cls, f.node, depth=2)
+             if isinstance(v, ast.Call) and (call_name(v) or "") == "BinaryExpression"]
+    problems = []
+    if not ctors:
+        problems.append("no path returns a BinaryExpression")
+    for c in ctors:
+        b = bind_call_args(c, iparams)
+        ctx.require(b is not None, "BinaryExpression._negate builds its result with */** arguments (unknown idiom)")
+        got = {k: unparse(v) for k, v in b.items()}
+        for prm, want in (("left", "self.left"), ("operator", "self.negate"), ("negate", "self.operator")):
+            if got.get(prm) != want:
+                problems.append(f"{prm}={got.get(prm)} (expected {want})")
+    ctx.check(not problems, f.key, "BinaryExpression._negate does not build (left, right', self.negate, negate=self.operator): "
+              + "; ".join(problems), "operator/negate swapped", f.loc)
 
 
 ASSOCIATIVE_IN_SQL = {"and_", "or_", "add", "mul", "concat_op"}
@@ -614,15 +625,37 @@ def r3(ctx):
         ctx.check(tbl in names, f.key, f"{fn} does not consult {tbl}", f"reads {tbl}", f.loc)
 
 
-def _self_group_against(call: ast.Call) -> Optional[str]:
+def _self_group_against(call: ast.Call, fnode=None) -> Optional[str]:
+    """Text of the `against` argument of an `x.self_group(...)` call (locals of `fnode` bound once inlined)."""
     if not (isinstance(call.func, ast.Attribute) and call.func.attr == "self_group"):
         return None
+    txt = (lambda e: unparse(inline_locals(fnode, e))) if fnode is not None else unparse
     for k in call.keywords:
         if k.arg == "against":
-            return unparse(k.value)
+            return txt(k.value)
     if call.args:
-        return unparse(call.args[0])
+        return txt(call.args[0])
     return "<none>"
+
+
+def _attr_store_values(fnode, target: str) -> List[ast.expr]:
+    """Values stored to attribute `target` (e.g. `self.left`) anywhere in `fnode`, locals bound once inlined;
+    `self.a, self.b = x, y` is read element-wise."""
+    out = []
+    for st in walk_stmts(fnode.body):
+        if isinstance(st, ast.AnnAssign) and st.value is not None and unparse(st.target) == target:
+            out.append(inline_locals(fnode, st.value))
+        if not isinstance(st, ast.Assign):
+            continue
+        for t in st.targets:
+            if unparse(t) == target:
+                out.append(inline_locals(fnode, st.value))
+            elif isinstance(t, (ast.Tuple, ast.List)) and isinstance(st.value, (ast.Tuple, ast.List)) \
+                    and len(t.elts) == len(st.value.elts):
+                for te, ve in zip(t.elts, st.value.elts):
+                    if unparse(te) == target:
+                        out.append(inline_locals(fnode, ve))
+    return out
 
 
 ALL_COMPILERS = dict(DIALECTS, standard=f"{CMP}::SQLCompiler", generic_str=f"{CMP}::StrSQLCompiler")
@@ -651,8 +684,15 @@ def _tri_and(vals):
 def _eval_under_precedent(e: ast.expr, ctx=None, cls=None, fnode=None, against: str = "against", depth: int = 0):
     """Three-valued truth of a guard under the hypothesis H: the instance has an operator, takes part in
     grouping (`self.group`), and is_precedent(self.operator, against) is true.  None = not determined.
-    Follows a local bound once and a helper method of the class that receives `against`."""
-    rec = lambda x: _eval_under_precedent(x, ctx, cls, fnode, against, depth)  # noqa: E731
+    Locals bound once are inlined first (`operator = self.operator`, `needs = self.group and ...`); a helper
+    method of the class that receives `against` is followed."""
+    if fnode is not None:
+        e = inline_locals(fnode, e)
+    return _eval_h(e, ctx, cls, against, depth)
+
+
+def _eval_h(e, ctx, cls, against, depth):
+    rec = lambda x: _eval_h(x, ctx, cls, against, depth)  # noqa: E731
     if isinstance(e, ast.UnaryOp) and isinstance(e.op, ast.Not):
         v = rec(e.operand)
         return None if v is None else not v
@@ -662,17 +702,30 @@ def _eval_under_precedent(e: ast.expr, ctx=None, cls=None, fnode=None, against: 
             return _tri_and(vals)
         neg = _tri_and([None if v is None else not v for v in vals])
         return None if neg is None else not neg
+    if isinstance(e, ast.IfExp):
+        t = rec(e.test)
+        if t is None:
+            a, b = rec(e.body), rec(e.orelse)
+            return a if a == b else None
+        return rec(e.body if t else e.orelse)
+    if isinstance(e, ast.Constant) and isinstance(e.value, bool):
+        return e.value
+    if isinstance(e, ast.Call) and (call_name(e) or "") == "bool" and len(e.args) == 1 and not e.keywords:
+        return rec(e.args[0])
+    if isinstance(e, ast.Compare) and len(e.ops) == 1 and isinstance(e.ops[0], (ast.Is, ast.IsNot, ast.Eq, ast.NotEq)):
+        l, r = e.left, e.comparators[0]
+        if isinstance(l, ast.Constant):
+            l, r = r, l
+        if isinstance(r, ast.Constant) and r.value is None and unparse(l) == "self.operator":
+            return isinstance(e.ops[0], (ast.IsNot, ast.NotEq))  # H: the instance has an operator
+        return None
     if isinstance(e, ast.Call) and (call_name(e) or "").rsplit(".", 1)[-1] == "is_precedent":
-        if [unparse(a) for a in e.args] == ["self.operator", against] and not e.keywords:
+        b = bind_call_args(e, ["operator", "against"])
+        if b is not None and {k: unparse(v) for k, v in b.items()} == {"operator": "self.operator", "against": against}:
             return True
         return None
     if unparse(e) in ("self.group", "self.operator"):
         return True
-    if isinstance(e, ast.Name) and fnode is not None and depth < 3:
-        binds = [v for n, v, st in name_stores(fnode) if n == e.id and v is not None]
-        if len(binds) == 1:
-            return _eval_under_precedent(binds[0], ctx, cls, fnode, against, depth + 1)
-        return None
     if (isinstance(e, ast.Call) and isinstance(e.func, ast.Attribute) and unparse(e.func.value) == "self"
             and ctx is not None and cls is not None and depth < 3):
         tgt = ctx.index.resolve_method(cls, e.func.attr)
@@ -689,25 +742,48 @@ def _eval_under_precedent(e: ast.expr, ctx=None, cls=None, fnode=None, against: 
         if inner_against is None:
             return None
         rets = [r for r in returns_of(tgt.node) if r.value is not None]
-        vals = {_eval_under_precedent(r.value, ctx, cls, tgt.node, inner_against, depth + 1) for r in rets}
-        if len(rets) == 1 and len(vals) == 1:
+        if not rets:
+            return None
+        # every return of the helper that is feasible under H must agree
+        g = ctx.cfg(tgt)
+        tri = lambda t: _eval_under_precedent(t, ctx, cls, tgt.node, inner_against, depth + 1)  # noqa: E731
+        live = feasible_reachable(g, tri)
+        vals = set()
+        for r in rets:
+            if not any(n in live for n in g.nodes_for(r)):
+                continue
+            vals.add(_eval_under_precedent(r.value, ctx, cls, tgt.node, inner_against, depth + 1))
+        if len(vals) == 1:
             ctx.functions_analysed.add(tgt.key)
             return vals.pop()
         return None
     return None
 
 
+def _split_atoms(test: ast.expr, pol: bool = True):
+    """Conjunctive atoms [(expr, polarity)] of a branch outcome (`not`, `and` when taken, `or` when refused)."""
+    if isinstance(test, ast.UnaryOp) and isinstance(test.op, ast.Not):
+        return _split_atoms(test.operand, not pol)
+    if isinstance(test, ast.BoolOp) and ((isinstance(test.op, ast.And) and pol) or (isinstance(test.op, ast.Or) and not pol)):
+        out = []
+        for v in test.values:
+            out.extend(_split_atoms(v, pol))
+        return out
+    return [(test, pol)]
+
+
 def _guarded_operators(guards) -> Optional[List[str]]:
-    """Operators X for which a dominating guard demands `self.operator is operators.X` (or `in (...)`)."""
-    from ..astutil import test_atoms
+    """Operators X for which a dominating branch outcome demands `self.operator is operators.X` (or `in (...)`),
+    however it is spelled (`is` taken / `is not` refused, inside `and` / De Morgan)."""
     for t, pol in guards:
-        for sub_t in ([t] if not (isinstance(t, ast.BoolOp) and isinstance(t.op, ast.And) and pol) else t.values):
-            if isinstance(sub_t, ast.Compare) and len(sub_t.ops) == 1 and unparse(sub_t.left) == "self.operator":
-                op, rhs = sub_t.ops[0], sub_t.comparators[0]
-                if isinstance(op, (ast.Is, ast.Eq)) and pol:
+        for a, p2 in _split_atoms(t, pol):
+            if isinstance(a, ast.Compare) and len(a.ops) == 1 and unparse(a.left) == "self.operator":
+                op, rhs = a.ops[0], a.comparators[0]
+                if (isinstance(op, (ast.Is, ast.Eq)) and p2) or (isinstance(op, (ast.IsNot, ast.NotEq)) and not p2):
                     d = dotted(rhs) or ""
                     return [d.rsplit(".", 1)[-1]]
-                if isinstance(op, ast.In) and pol and isinstance(rhs, (ast.Tuple, ast.List, ast.Set)):
+                if ((isinstance(op, ast.In) and p2) or (isinstance(op, ast.NotIn) and not p2)) \
+                        and isinstance(rhs, (ast.Tuple, ast.List, ast.Set)):
                     return [(dotted(x) or "?").rsplit(".", 1)[-1] for x in rhs.elts]
     return None
 
@@ -812,43 +888,83 @@ def r4(ctx):
     opparam = "operator"
     ctx.require(opparam in f.params, "BinaryExpression.__init__ has no `operator` parameter")
     for side in ("left", "right"):
-        good = False
-        for st in walk_stmts(f.node.body):
-            if isinstance(st, ast.Assign) and any(unparse(t) == f"self.{side}" for t in st.targets):
-                v = st.value
-                good = (
-                    isinstance(v, ast.Call) and _self_group_against(v) == opparam
-                    and unparse(v.func.value) == side
-                )
+        vals = _attr_store_values(f.node, f"self.{side}")
+        good = bool(vals) and all(
+            isinstance(v, ast.Call) and _self_group_against(v, f.node) == opparam and unparse(v.func.value) == side
+            for v in vals)
         ctx.check(good, f"{f.key}:{side}", f"self.{side} is not stored as {side}.self_group(against=operator)",
                   "self_group(against=operator)", f.loc)
     # UnaryExpression.__init__
     f = ctx.func(f"{EL}::UnaryExpression.__init__")
-    good = False
-    for st in walk_stmts(f.node.body):
-        if isinstance(st, ast.Assign) and any(unparse(t) == "self.element" for t in st.targets):
-            v = st.value
-            if isinstance(v, ast.Call):
-                ag = _self_group_against(v) or ""
-                good = unparse(v.func.value) == "element" and "operator" in ag
+    vals = _attr_store_values(f.node, "self.element")
+    own_ops = {unparse(v) for side in ("operator", "modifier") for v in _attr_store_values(f.node, f"self.{side}")}
+    good = bool(vals)
+    for v in vals:
+        ag = (_self_group_against(v, f.node) or "") if isinstance(v, ast.Call) else ""
+        good = good and isinstance(v, ast.Call) and isinstance(v.func, ast.Attribute) \
+            and unparse(v.func.value) == "element" and "operator" in ag
     ctx.check(good, f"{f.key}:element", "self.element is not element.self_group(against=<operator or modifier>)",
               "self_group(against=self.operator or self.modifier)", f.loc)
     # ExpressionClauseList._construct_for_list
     f = ctx.func(f"{EL}::ExpressionClauseList._construct_for_list")
     stores = [st for st in walk_stmts(f.node.body) if isinstance(st, ast.Assign) and any(unparse(t) == "self.clauses" for t in st.targets)]
     ctx.require(stores, "_construct_for_list no longer assigns self.clauses")
-    pm = f.module.parents()
-    from ..astutil import lexical_guards, guard_atoms
+    ctx.functions_analysed.add(f.key)
+    # hypothesis `group` is true: no bare (un-self_grouped) member list may reach self.clauses.  Branch outcomes
+    # that `group` refutes are not followed, so `if group: .. else: ..`, its inversion, an early return for the
+    # bare arm and a local that is conditionally re-bound all read the same.
+    ctx.require("group" in f.params, "_construct_for_list has no `group` parameter")
+    g = ctx.cfg(f)
+
+    def tri_group(t):
+        if isinstance(t, ast.UnaryOp) and isinstance(t.op, ast.Not):
+            v = tri_group(t.operand)
+            return None if v is None else not v
+        if isinstance(t, ast.BoolOp):
+            vals = [tri_group(v) for v in t.values]
+            if isinstance(t.op, ast.And):
+                return _tri_and(vals)
+            neg = _tri_and([None if v is None else not v for v in vals])
+            return None if neg is None else not neg
+        if isinstance(t, ast.Name) and t.id == "group":
+            return True
+        if isinstance(t, ast.Compare) and len(t.ops) == 1 and unparse(t.left) == "group" \
+                and isinstance(t.comparators[0], ast.Constant) and isinstance(t.comparators[0].value, bool):
+            eq = isinstance(t.ops[0], (ast.Is, ast.Eq))
+            if eq or isinstance(t.ops[0], (ast.IsNot, ast.NotEq)):
+                return (t.comparators[0].value is True) == eq
+        return None
+
+    tri = lambda t: tri_group(inline_locals(f.node, t))  # noqa: E731
+    live = feasible_reachable(g, tri)
+
+    def is_grouped(val):
+        calls = [c for c in calls_in(val) if _self_group_against(c) is not None]
+        return bool(calls) and all(_self_group_against(c, f.node) == "operator" for c in calls) and isinstance(
+            val, (ast.Call, ast.GeneratorExp, ast.ListComp, ast.Tuple))
+
     grouped_ok, ungrouped_guarded = False, True
     for st in stores:
-        calls = [c for c in calls_in(st.value) if _self_group_against(c) is not None]
-        atoms = guard_atoms(lexical_guards(pm, st, stop=f.node))
-        if calls:
-            grouped_ok = all(_self_group_against(c) == "operator" for c in calls) and isinstance(
-                st.value, (ast.Call, ast.GeneratorExp, ast.ListComp, ast.Tuple))
-        else:
-            if ("group", False) not in atoms:
-                ungrouped_guarded = False
+        val = inline_locals(f.node, st.value)
+        st_nodes = set(g.nodes_for(st))
+        if is_grouped(val):
+            grouped_ok = True
+        elif isinstance(val, ast.Name) and val.id not in f.params:
+            # a local bound more than once: each binding is a definition that may flow into the store
+            binds = [(v, b) for n, v, b in name_stores(f.node) if n == val.id]
+            ctx.require(binds and all(v is not None for v, b in binds), f"{f.key}: `{val.id}` stored to self.clauses is bound in a way not understood")
+            all_nodes = {nid for v, b in binds for nid in g.nodes_for(b)}
+            for v, b in binds:
+                if is_grouped(inline_locals(f.node, v)):
+                    grouped_ok = True
+                    continue
+                mine = set(g.nodes_for(b))
+                # the bare definition survives to the store (no other definition in between) although group is true
+                flows = feasible_reachable(g, tri, starts=[n for n in mine if n in live], avoid=all_nodes - mine)
+                if st_nodes & flows:
+                    ungrouped_guarded = False
+        elif st_nodes & live:
+            ungrouped_guarded = False
     ctx.check(grouped_ok and ungrouped_guarded, f"{f.key}:clauses",
               "clauses are stored without self_group(against=operator) outside the explicit group=False arm",
               "each clause self_group(against=operator) unless group=False", f.loc)
@@ -947,12 +1063,12 @@ def r4(ctx):
         # forwarding
         for c in calls_in(f.node):
             if isinstance(c.func, ast.Attribute) and c.func.attr == "self_group" and agp:
-                ctx.check(_self_group_against(c) == agp, f"{f.key}:forwards-against",
+                ctx.check(_self_group_against(c, f.node) == agp, f"{f.key}:forwards-against",
                           f"delegates to `{unparse(c.func)}` without forwarding `against`: the inner expression is "
                           f"grouped for no operator at all", "against forwarded", f.loc)
             elif agp and any(isinstance(a, ast.Attribute) and a.attr == "self_group" for a in c.args):
-                ctx.check(any(k.arg == "against" and unparse(k.value) == agp for k in c.keywords) or
-                          any(unparse(a) == agp for a in c.args),
+                ctx.check(any(k.arg == "against" and unparse(inline_locals(f.node, k.value)) == agp for k in c.keywords) or
+                          any(unparse(inline_locals(f.node, a)) == agp for a in c.args),
                           f"{f.key}:forwards-against",
                           "passes an inner self_group on without forwarding `against`", "against forwarded", f.loc)
         if not bearing:
@@ -962,8 +1078,12 @@ def r4(ctx):
         problems, details = [], []
         rets = returns_of(f.node)
         ctx.require(rets, f"{f.key}: no return statement")
+        # nodes that can be reached while is_precedent(self.operator, against) holds: a branch outcome that the
+        # hypothesis refutes is not followed, whatever the shape of the decision (compound test, nested ifs,
+        # early return, inverted if/else, boolean local, helper method)
+        live = feasible_reachable(g, lambda t, f=f, cls=cls, agp=agp: _eval_under_precedent(t, ctx, cls, f.node, agp))
         for r in rets:
-            v = r.value
+            v = inline_locals(f.node, r.value) if r.value is not None else None
             txt = unparse(v) if v is not None else "None"
             if isinstance(v, ast.Call):
                 nm = (call_name(v) or "")
@@ -973,10 +1093,10 @@ def r4(ctx):
                     continue  # judged by the forwarding check; the target is a member of the family
             ctx.require(txt == "self", f"{f.key}: returns `{txt}`, neither self, Grouping(self) nor a delegation")
             for nid in g.nodes_for(r):
-                guards = g.edge_guards(nid)
-                if any((lambda val: val is not None and val != pol)(_eval_under_precedent(t, ctx, cls, f.node, agp)) for t, pol in guards):
+                if nid not in live:
                     details.append("returns self only where is_precedent(self.operator, against) is false")
                     continue
+                guards = [(inline_locals(f.node, t), pol) for t, pol in g.edge_guards(nid)]
                 atoms = _ga(guards)
                 xs = _guarded_operators(guards)
                 if xs:
@@ -1132,3 +1252,216 @@ R.mutant("benign-fix-between-members-grouped", DC, sub(
 R.mutant("benign-fix-asboolean-consults-precedence", EL, sub(
     "    def self_group(self, against: Optional[OperatorType] = None) -> Self:\n        return self\n\n    def _negate(self):\n        if isinstance(self.element, (True_, False_)):",
     "    def self_group(self, against=None):\n        if against is not None and operators.is_precedent(self.operator, against):\n            return Grouping(self)\n        return self\n\n    def _negate(self):\n        if isinstance(self.element, (True_, False_)):"), None)
+
+# ---- robustify round (rob-C1): shape-independent reading of is_precedent / _negate / self_group / constructors
+_ISP = """    if operator is against and is_natural_self_precedent(operator):
+        return False
+    elif against is None:
+        return True
+    else:
+        return bool(
+            _PRECEDENCE.get(
+                operator, getattr(operator, "precedence", _OpLimit._smallest)
+            )
+            <= _PRECEDENCE.get(
+                against, getattr(against, "precedence", _OpLimit._largest)
+            )
+        )
+"""
+_ISP_LOCALS = """    if operator is against and is_natural_self_precedent(operator):
+        return False
+    if against is None:
+        return True
+
+    operator_precedence = _PRECEDENCE.get(
+        operator, getattr(operator, "precedence", _OpLimit._smallest)
+    )
+    against_precedence = _PRECEDENCE.get(
+        against, getattr(against, "precedence", _OpLimit._largest)
+    )
+    return bool(operator_precedence %s against_precedence)
+"""
+R.mutant("benign-is_precedent-early-returns-named-locals", OPS, sub(_ISP, _ISP_LOCALS % "<="), None)
+R.mutant("is_precedent-named-locals-strict", OPS, sub(_ISP, _ISP_LOCALS % "<"), "C01-R1")
+R.mutant("is_precedent-named-locals-inverted", OPS, sub(_ISP, _ISP_LOCALS % ">="), "C01-R1")
+R.mutant("benign-is_precedent-operands-flipped", OPS, sub(_ISP, """    if against is None:
+        return True
+    if operator is against and is_natural_self_precedent(operator):
+        return False
+    outer = _PRECEDENCE.get(
+        against, getattr(against, "precedence", _OpLimit._largest)
+    )
+    inner = _PRECEDENCE.get(
+        operator, getattr(operator, "precedence", _OpLimit._smallest)
+    )
+    return outer >= inner
+"""), None)
+R.mutant("benign-is_precedent-negated-comparison", OPS, sub(_ISP, """    same = operator is against
+    if same and is_natural_self_precedent(operator):
+        return False
+    elif against is None:
+        return True
+    binds_tighter = _PRECEDENCE.get(
+        operator, getattr(operator, "precedence", _OpLimit._smallest)
+    ) > _PRECEDENCE.get(
+        against, getattr(against, "precedence", _OpLimit._largest)
+    )
+    return not binds_tighter
+"""), None)
+_ISP_HEAD = "def is_precedent(\n    operator: OperatorType, against: Optional[OperatorType]\n) -> bool:\n"
+_ISP_HELPER = ("def _precedence_of(op: Any, default: int) -> int:\n"
+               "    return _PRECEDENCE.get(op, getattr(op, \"precedence\", default))\n\n\n")
+R.mutant("benign-is_precedent-lookup-helper", OPS, chain(sub(_ISP_HEAD, _ISP_HELPER + _ISP_HEAD), sub(_ISP, """    if operator is against and is_natural_self_precedent(operator):
+        return False
+    elif against is None:
+        return True
+    return _precedence_of(operator, _OpLimit._smallest) <= _precedence_of(
+        against, _OpLimit._largest
+    )
+""")), None)
+R.mutant("is_precedent-lookup-helper-operands-swapped", OPS, chain(sub(_ISP_HEAD, _ISP_HELPER + _ISP_HEAD), sub(_ISP, """    if operator is against and is_natural_self_precedent(operator):
+        return False
+    elif against is None:
+        return True
+    return _precedence_of(against, _OpLimit._smallest) <= _precedence_of(
+        operator, _OpLimit._largest
+    )
+""")), "C01-R1")
+R.mutant("is_precedent-self-precedent-exemption-for-all", OPS, sub(_ISP, _ISP.replace(
+    "    if operator is against and is_natural_self_precedent(operator):\n", "    if operator is against or is_natural_self_precedent(operator):\n")), "C01-R1")
+# BinaryExpression._negate
+_NEG = """        if self.negate is not None:
+            return BinaryExpression(
+                self.left,
+                self.right._negate_in_binary(self.negate, self.operator),
+                self.negate,
+                negate=self.operator,
+                type_=self.type,
+                modifiers=self.modifiers,
+            )
+        else:
+            return self.self_group()._negate()
+"""
+_NEG_ALIAS = """        negated_op = self.negate
+        if negated_op is None:
+            return self.self_group()._negate()
+
+        original_op = self.operator
+        return BinaryExpression(
+            self.left,
+            self.right._negate_in_binary(negated_op, original_op),
+            negated_op,
+            negate=%s,
+            type_=self.type,
+            modifiers=self.modifiers,
+        )
+"""
+R.mutant("benign-negate-aliases-inverted-if", EL, sub(_NEG, _NEG_ALIAS % "original_op"), None)
+R.mutant("negate-aliases-not-swapped", EL, sub(_NEG, _NEG_ALIAS % "negated_op"), "C01-R2")
+R.mutant("benign-negate-keyword-arguments-result-local", EL, sub(_NEG, """        if self.negate is None:
+            return self.self_group()._negate()
+        negated = BinaryExpression(
+            left=self.left,
+            right=self.right._negate_in_binary(self.negate, self.operator),
+            operator=self.negate,
+            type_=self.type,
+            negate=self.operator,
+            modifiers=self.modifiers,
+        )
+        return negated
+"""), None)
+R.mutant("benign-negate-extracted-helper", EL, sub(_NEG, """        if self.negate is not None:
+            return self._with_operators(self.negate, self.operator)
+        else:
+            return self.self_group()._negate()
+
+    def _with_operators(self, op, negate_op):
+        return BinaryExpression(
+            self.left,
+            self.right._negate_in_binary(op, negate_op),
+            op,
+            negate=negate_op,
+            type_=self.type,
+            modifiers=self.modifiers,
+        )
+"""), None)
+R.mutant("negate-extracted-helper-arguments-swapped", EL, sub(_NEG, """        if self.negate is not None:
+            return self._with_operators(self.operator, self.negate)
+        else:
+            return self.self_group()._negate()
+
+    def _with_operators(self, op, negate_op):
+        return BinaryExpression(
+            self.left,
+            self.right._negate_in_binary(op, negate_op),
+            op,
+            negate=negate_op,
+            type_=self.type,
+            modifiers=self.modifiers,
+        )
+"""), "C01-R2")
+# self_group(): the decision spelled differently
+_OE_SG = """        if (
+            self.group
+            and operators.is_precedent(self.operator, against)
+            or (
+                # a negate against a non-boolean operator
+                # doesn't make too much sense but we should
+                # group for that
+                against is operators.inv
+                and not operators.is_boolean(self.operator)
+            )
+        ):
+            return Grouping(self)
+        else:
+            return self
+"""
+_OE_SG_SPLIT = """        operator = self.operator
+        if self.group and %soperators.is_precedent(operator, against):
+            return Grouping(self)
+
+        if against is operators.inv:
+            if not operators.is_boolean(operator):
+                return Grouping(self)
+
+        return self
+"""
+R.mutant("benign-operatorexpression-self-group-sequential-guards", EL, sub(_OE_SG, _OE_SG_SPLIT % ""), None)
+R.mutant("operatorexpression-self-group-sequential-guards-inverted", EL, sub(_OE_SG, _OE_SG_SPLIT % "not "), "C01-R4")
+_CL_SG = ("        if self.group and operators.is_precedent(self.operator, against):\n            return Grouping(self)\n"
+          "        else:\n            return self\n\n\nclass OperatorExpression")
+R.mutant("benign-clauselist-self-group-nested-ifs", EL, sub(_CL_SG, """        if self.group:
+            if operators.is_precedent(self.operator, against):
+                return Grouping(self)
+        return self
+
+
+class OperatorExpression"""), None)
+R.mutant("clauselist-self-group-nested-ifs-group-flag-inverted", EL, sub(_CL_SG, """        if not self.group:
+            if operators.is_precedent(self.operator, against):
+                return Grouping(self)
+        return self
+
+
+class OperatorExpression"""), "C01-R4")
+R.mutant("benign-clauselist-self-group-result-local", EL, sub(_CL_SG, """        op = self.operator
+        needs_parens = self.group and operators.is_precedent(op, against)
+        result = Grouping(self) if needs_parens else self
+        return result
+
+
+class OperatorExpression"""), None)
+R.mutant("benign-booleanclauselist-self-group-alias-early-delegation", EL, sub(
+    "        if not self.clauses:\n            return self\n        else:\n            return super().self_group(against=against)",
+    "        members = self.clauses\n        if members:\n            return super().self_group(against=against)\n        return self"), None)
+R.mutant("benign-binary-init-grouped-locals", EL, sub(
+    "        self.left = left.self_group(against=operator)\n        self.right = right.self_group(against=operator)\n",
+    "        grouped_left = left.self_group(against=operator)\n        grouped_right = right.self_group(against=operator)\n"
+    "        self.left, self.right = grouped_left, grouped_right\n"), None)
+R.mutant("binary-init-grouped-locals-right-bare", EL, sub(
+    "        self.left = left.self_group(against=operator)\n        self.right = right.self_group(against=operator)\n",
+    "        grouped_left = left.self_group(against=operator)\n        grouped_right = right\n"
+    "        self.left, self.right = grouped_left, grouped_right\n"), "C01-R4")
+R.mutant("benign-construct-for-list-early-return-arm", EL, sub(
+    "        if group:\n            self.clauses = tuple(\n                c.self_group(against=operator) for c in clauses\n            )\n        else:\n            self.clauses = clauses\n",
+    "        members = clauses\n        if group:\n            members = tuple(\n                c.self_group(against=operator) for c in clauses\n            )\n        self.clauses = members\n"), None)
